@@ -97,6 +97,12 @@ CHECKS["C10"] = ("model_checking",
     "The functions interpret a plan argument, so all nodes share one static closure; only the local runner.",
     "DESIGN.md §3 C10")
 
+CHECKS["C16"] = ("model_checking",
+    "bounded-exhaustive enumeration of call trees x per-edge context overrides x ordered pairs of root contexts run on one store x backends; oracle = reference propagation model",
+    "For the chain root->mid->leaf (all 9 assignments of {inherit, override with {}, override with {k:3}} to its edges) and the diamond root->{mid1,mid2}->leaf (27 quick / 81 thorough assignments), every ordered pair of root contexts from {none, {}, {k:1}, {k:2}, {k:1, j:function reference}} is run successively on one store (so each sub-call is met un-memoized and memoized under equal and under different effective contexts): returned values, which bodies run, that no body receives a context argument as parameter, and the context recorded in each call's memento must follow the model (own override replaces entirely, else the caller's). With further calls prevented at the root or at an inner call, the nested memento call must fail with RuntimeError and never run, whether or not its result is already memoized.",
+    "Two tree shapes; contexts over two keys; local runner.",
+    "DESIGN.md §3 C16")
+
 PENDING = {}
 
 
